@@ -99,6 +99,15 @@ def judge (j : Json) : R Verdict := do
       | .str s, .bytes, .ok _ => if (hexToBytes s).isNone then spec := spec ++ ["accepts-ill-formed-hex"]
       | .str s, .utxoRef, .ok _ => if !(s.contains '#') then spec := spec ++ ["accepts-ill-formed-utxo-ref"]
       | _, _, _ => pure ()
+    -- a boolean is true / false, 0 / 1 or "true" / "false": nothing else is one, whichever stream it comes from
+    match v, ty, obs.getObjVal? "ok" with
+    | .int n, .bool, .ok _ => if n != 0 && n != 1 then spec := spec ++ ["accepts-ill-formed-bool"]
+    | .str s, .bool, .ok _ => if s != "true" && s != "false" then spec := spec ++ ["accepts-ill-formed-bool"]
+    | .float, .bool, .ok _ => spec := spec ++ ["accepts-ill-formed-bool"]
+    | .null, .bool, .ok _ => spec := spec ++ ["accepts-ill-formed-bool"]
+    | .arr, .bool, .ok _ => spec := spec ++ ["accepts-ill-formed-bool"]
+    | .obj _, .bool, .ok _ => spec := spec ++ ["accepts-ill-formed-bool"]
+    | _, _, _ => pure ()
     return { i, corr, spec, key, tags := [gen], nt := true }
   | "request" =>
     let declared ← (← arr (← field j "declared")).mapM fun p => do
